@@ -129,6 +129,7 @@ type MFrame struct {
 	CUU       int // cursor-up count this frame starts with
 	ExtRev    map[int]bool
 	Visible   []int // bars whose main row survives the height limit, top to bottom
+	WriteFailed bool // the output writer returned an error for this frame (its bytes are lost or cut)
 	Ambiguous bool  // clipped frame whose cut depends on the order of equal priorities (or a lazy change)
 }
 
@@ -176,7 +177,7 @@ func Simulate(sc *Scenario) *Sim {
 		s.fail("not manual refresh")
 		return s
 	}
-	if sc.OutErrAt > 0 || sc.SizeErrAt > 0 {
+	if sc.SizeErrAt > 0 || (sc.OutErrAt > 0 && sc.Cfg.PtyRows > 0) {
 		s.fail("faults")
 		return s
 	}
@@ -436,6 +437,12 @@ func Simulate(sc *Scenario) *Sim {
 			nextCUU = f.NextCUU
 			if !wrote {
 				continue
+			}
+			if sc.OutErrAt > 0 && len(s.Frames)+1 == sc.OutErrAt {
+				// the output writer fails on this frame: the bars were already put
+				// back, the container shuts down and draws nothing more
+				f.WriteFailed = true
+				s.Errored, s.ErrBar, s.Cancelled = true, -1, true
 			}
 			s.Frames = append(s.Frames, f)
 		}
